@@ -293,6 +293,14 @@ impl<'arena, 'input: 'arena> Lexer<'arena, 'input> {
                 }
 
                 let esc = self.src[pos + 1];
+                // The escaped character may be multi-byte; never split it.
+                let esc_len = if esc.is_ascii() {
+                    1
+                } else {
+                    // SAFETY: pos + 1 is a char boundary because `\\` is ASCII and the input is a &str
+                    let rest = unsafe { str::from_utf8_unchecked(&self.src[pos + 1..self.len]) };
+                    rest.chars().next().map_or(1, char::len_utf8)
+                };
                 match esc {
                     b'"' if quote == b'"' => buffer.push('"'),
                     b'\'' if quote == b'\'' => buffer.push('\''),
@@ -301,18 +309,22 @@ impl<'arena, 'input: 'arena> Lexer<'arena, 'input> {
                     b't' => buffer.push('\t'),
                     _ => {
                         self.emit_error(
-                            Range::from(pos..pos + 2),
+                            Range::from(pos..pos + 1 + esc_len),
                             LexError::InvalidStringEscape,
                             vec![Label {
-                                span: Range::from(pos..pos + 2),
+                                span: Range::from(pos..pos + 1 + esc_len),
                                 message: ArenaCow::Borrowed("I no sabi dis escape character"),
                             }],
                         );
                         // Append the invalid escape character
-                        buffer.push(esc as char);
+                        // SAFETY: pos + 1..pos + 1 + esc_len spans exactly one character
+                        let string = unsafe {
+                            str::from_utf8_unchecked(&self.src[pos + 1..pos + 1 + esc_len])
+                        };
+                        buffer.push_str(string);
                     }
                 }
-                self.pos = pos + 2;
+                self.pos = pos + 1 + esc_len;
             }
         }
 
